@@ -263,6 +263,17 @@ def run(ctx):
     # fewer than 2 knees is outside the property's quantifier: only completion, shape and the model correspondence are judged there
     w = np.array([[0, 10], [1, 6], [2, 7], [3, 3], [4, 2], [5, 0]], float)
     one(ctx, w, [2], 'single', 0.1, 'hull', 'corpus-single-knee')
+    from .. import rdpfam
+    for _ in range(8 if quick else 120):
+        # LONG curves with a few knees far apart in ONE wide cluster (spans of hundreds of points, cliffs and spikes inside): the fit quality
+        # of a member depends on every sample of its span - anything that thins out, strides or caps long spans ranks another member first
+        pts, fam = rdpfam.long_curve(rng, rng.randrange(400, 1300))
+        n = len(pts)
+        knees = sorted(rng.sample(range(1, n - 1), rng.randrange(3, 7)))
+        if rng.random() < 0.5:
+            j = rng.randrange(20, n - 20)
+            pts[j:, 1] = pts[j:, 1] * 0.25                   # a cliff somewhere
+        one(ctx, pts, knees, rng.choice(LINK), rng.choice([0.5, 1.0, 0.75]), rng.choice(['left', 'linear', 'right', 'left', 'linear', 'corners', 'hull']), fam)
     for _ in range(700 if quick else 15000):
         n = rng.randrange(6, 60) if rng.random() < 0.9 else rng.randrange(4, 6)
         pts, fam = gen.dyadic_curve(rng, n, scale_exp=0)
